@@ -62,6 +62,20 @@ def strip_ns(t):
     return t
 
 
+def fstr(x):
+    """a NEW str object with the same text (no sharing with literals / other nodes)"""
+    return "".join(list(x)) if isinstance(x, str) else x
+
+
+def fresh_strs(t):
+    """the same tree with every name / id / content / attribute string rebuilt as a new object"""
+    c = {k: fstr(v) for k, v in t.items() if k not in ("attrs", "extras", "nsmap", "kids")}
+    for f in ("attrs", "extras", "nsmap"):
+        c[f] = [[fstr(a), fstr(b)] for a, b in t.get(f, [])]
+    c["kids"] = [fresh_strs(k) for k in t["kids"]]
+    return c
+
+
 def all_strings(t):
     return [n["content"] for n, _, _ in walk(t) if n["content"] is not None]
 
@@ -219,11 +233,14 @@ class Planter:
         n = tgt[0]
         r = self.rng.random()
         if r < 0.25:
-            n["content"] = None if n["content"] is not None else "unexpected text"
+            n["content"] = self.rng.choice([None, ""]) if n["content"] else "unexpected text"
             return n, "bad-content"
         if r < 0.5:
+            if n["attrs"] and self.rng.random() < 0.3:
+                self.rng.choice(n["attrs"])[1] = ""          # falsy but legal attribute value
+                return n, "empty-attribute-value"
             if all(a[0] != "zzAttr" for a in n["attrs"]):
-                n["attrs"].append(["zzAttr", "1"])
+                n["attrs"].append(["zzAttr", self.rng.choice(["1", ""])])
             return n, "bad-attribute"
         if r < 0.7 and n["kids"]:
             del n["kids"][self.rng.randrange(len(n["kids"]))]
@@ -302,7 +319,7 @@ def run_impl(t, strict):
     from metapype.eml.exceptions import MetapypeRuleError
     from metapype.model.node import Node
     Node.store.clear()
-    root = NL.build(t, attach=False)
+    root = NL.build(fresh_strs(t), attach=False)
     return observe(root, strict, clear=True)
 
 
@@ -356,6 +373,17 @@ def observe(root, strict, clear=True):
             chk(c)
     chk(root)
     out["bad_links"] = bad_links
+    import gc
+    gc.collect()
+    kept_live = []
+
+    def reg(n):
+        kept_live.append(n)
+        for c in n.children:
+            reg(c)
+    reg(root)
+    out["registry_wrong_object"] = [n.id for n in kept_live if Node.store.get(n.id) is not n][:5]
+    out["_removed_nodes"] = [n for n, _ in pruned]
     # strict postcondition needs the live nodes
     fails = []
 
@@ -396,7 +424,7 @@ def choose_edits15(rng, tb, gen, snap):
         n, p = rng.choice(nodes)
         r = rng.random()
         if r < 0.3:
-            edits.append({"op": "add", "id": n["id"], "index": rng.randint(0, len(n["kids"])),
+            edits.append({"op": rng.choice(["add", "add_direct"]), "id": n["id"], "index": rng.randint(0, len(n["kids"])),
                           "subtree": hid_tree(node(rng.choice(UNKNOWN_NAMES), None, [], [node("title", "t")] if rng.random() < 0.3 else []))})
             tags.append("add-unknown")
         elif r < 0.55 and n["name"] in tb.node_map:
@@ -408,8 +436,11 @@ def choose_edits15(rng, tb, gen, snap):
                 nm = rng.choice(tb.known)
             edits.append({"op": "add", "id": n["id"], "index": rng.randint(0, len(n["kids"])), "subtree": hid_tree(gen.tree(nm, 1, False))})
             tags.append("add-misplaced")
+        elif r < 0.62:
+            edits.append({"op": "add_copy_of_removed", "id": n["id"], "k": rng.randint(0, 7)})
+            tags.append("add-copy-of-removed")
         elif r < 0.7:
-            edits.append({"op": "set_attr", "id": n["id"], "k": "zzAttr", "v": "1"})
+            edits.append({"op": rng.choice(["set_attr", "attr_direct"]), "id": n["id"], "k": "zzAttr", "v": rng.choice(["1", ""])})
             tags.append("bad-attribute")
         elif r < 0.85:
             edits.append({"op": "set_content", "id": n["id"], "content": None if n["content"] is not None else "unexpected"})
@@ -427,13 +458,15 @@ def run_history15(tb, gen, t, strict, rng=None, steps_edits=None, max_steps=3):
     from harness.c16 import apply_edit
     from metapype.model.node import Node
     Node.store.clear()
-    root = NL.build(t, attach=False)
+    root = NL.build(fresh_strs(t), attach=False)
     v, log = [], []
+    removed_nodes = []
     for step in range(max_steps):
         snap = NL.snapshot(root)
         if snap["name"] not in tb.node_map:
             break
         o = observe(root, strict, clear=False)
+        removed_nodes = o.pop("_removed_nodes", []) or removed_nodes
         live_after = NL.snapshot(root)
         for key, what in statement_violations(tb, snap, strict, o):
             v.append(("history:" + key, f"call {step + 1} on the same tree objects: " + what, step))
@@ -455,7 +488,7 @@ def run_history15(tb, gen, t, strict, rng=None, steps_edits=None, max_steps=3):
         else:
             tag, edits = choose_edits15(rng, tb, gen, live_after)
         for e in edits:
-            apply_edit(root, e)
+            apply_edit(root, e, removed_nodes)
         log[-1]["then"] = [tag, edits]
     Node.store.clear()
     return v, log
@@ -502,6 +535,8 @@ def statement_violations(tb, t, strict, o):
         v.append(("kept-changed", "the pruned tree is not the input with the removed subtrees deleted (a kept node changed or moved)"))
     if o["bad_links"]:
         v.append(("kept-links", f"parent links of kept nodes broken: {o['bad_links'][:3]}"))
+    if o.get("registry_wrong_object"):
+        v.append(("registry-object", f"Node.store does not map the ids of kept nodes to those nodes: {o['registry_wrong_object'][:3]}"))
     # 3. returned list = exactly the removed roots, each with a reason
     listed = [i for i, _ in o["returned"]]
     if o["returned_malformed"]:
@@ -608,6 +643,19 @@ def base_trees(ctx, tb, gen, n_gen):
             n["kids"] = [k for k in n["kids"] if size(k) <= 5][:8]
     out = [("eml.xml", full), ("eml.xml-trimmed", trimmed)]
     out += [("eml.xml-subtree", n) for n in small]
+    # parents with more than 256 children (sizes past the small-int cache)
+    ks = node("keywordSet", None, [], [node("keyword", "k%d" % i) for i in range(300)] + [node("keywordThesaurus", "th")])
+    for pos, nm in ((3, "zzUnknown"), (256, "title"), (257, "zzUnknown"), (258, "creator"), (299, "Title")):
+        ks["kids"].insert(pos, node(nm, None))
+    out.append(("wide", ks))
+    wide = node("dataset", None, [], [node("title", "A title long enough")] +
+                [node("creator", None, [], [node("organizationName", "Org%d" % i)]) for i in range(280)] +
+                [node("contact", None, [], [node("organizationName", "C")])])
+    for pos in (5, 255, 256, 257, 258, 279):
+        wide["kids"][pos]["kids"] = []                       # invalid on their own (strict)
+    wide["kids"][256]["kids"] = [node("zzUnknown")]
+    wide["kids"][260]["kids"].append(node("title", "misplaced"))
+    out.append(("wide", wide))
     names = list(tb.node_map)
     for i in range(n_gen):
         # every fifth tree under a parent whose rule lists a name that is no element (C10 gaps)
@@ -623,7 +671,7 @@ def cases(ctx, tb):
     bases = base_trees(ctx, tb, gen, 220 if thorough else 60)
     rounds = 6 if thorough else 2
     for kind, base in bases:
-        reps = rounds * (4 if kind in ("eml.xml", "eml.xml-trimmed") else 1)
+        reps = rounds * (4 if kind in ("eml.xml", "eml.xml-trimmed", "wide") else 1)
         for r in range(reps):
             t = copy.deepcopy(base)
             tags = [] if r == 0 and kind != "generated" else pl.mutate(t, ctx)
